@@ -1283,6 +1283,9 @@ class SSeq:
     def concretize(self, m):
         cnt = m.eval(self.count, model_completion=True).as_long()
         tot = m.eval(self.total, model_completion=True).as_long()
+        if cnt > 4096 or tot > (1 << 24):
+            # a model with millions of elements / bytes is not materialised (a worker once grew to 19 GB doing so)
+            return {"__seq_summary__": {"count": cnt, "total_bytes": tot, "appended": len(self.tail)}}
         out = []
         lo = 1 if self.nonempty else 0
         rem = tot
